@@ -51,6 +51,8 @@ def run(ctx):
     RL.check_regex_table_ownership(ctx, 'R14.3')
     strategy = check_lookup_strategy(ctx, T)
     check_words(ctx, T)
+    ctx.rule('R14.10', 'a word that is no letter-case variant (Unicode caseless matching) of a dictionary word is one Name token: Lexer.get_tokens interpreted', floor=5)
+    check_foreign_words(ctx, T)
     for name, d in T.kw:
         bad = [k for k, v in d.items() if not isinstance(v, TT) or not isinstance(k, str) or k != k.upper()]
         ctx.ob('R14.5', f'dict:{name}', T.kwmod.relpath, f'{name}: keys are upper-case strings and values are token types ({len(d)} entries)', not bad,
@@ -185,3 +187,43 @@ def check_words(ctx, T):
         bad = [c for c in CTX if T.lex_one(w + c, 0)[1:] != (len(w), TT(('Name',)))]
         ctx.ob('R14.4', f'nonword:{w}', kwloc, f'the non-dictionary word {w!r} is one Name token', not bad, f'contexts {bad}')
     ctx.info['dictionary_words'] = n
+
+
+# words whose str.upper() lands on an ASCII dictionary word although no caseless comparison (str.casefold) equates them -- the
+# dotless i -- next to plain non-words and a capital dotted I (upper() leaves it alone)
+FOREIGN_WORDS = ('\u0131nsert', '\u0131n', 'l\u0131m\u0131t', 'w\u0131th', 'zzqx', '\u00fcn\u00efcode', '\u0130nsert', 's\u0131n\u0131f')
+
+
+def check_foreign_words(ctx, T):
+    """`Every word of the dictionaries in any letter case ... a word in no dictionary is a Name`: the spelled word belongs to a
+    dictionary word W iff word.casefold() == W.casefold().  Decided on the code itself by interpreting Lexer.get_tokens (with the
+    interpreted default lexer) on words chosen so that the upper-casing of is_keyword and the caseless comparison disagree."""
+    from .. import miniev as ME
+    f = ctx.repo.func(RL.LEXER + '.get_tokens')
+    L = ctx.repo.classes.get(RL.LEXER)
+    loc = f'{f.mod.relpath}:{f.node.lineno}'
+    lx, why = RL.default_lexer(ctx)
+    if lx is None:
+        ctx.ob('R14.10', 'foreign:simulation', loc, 'the lexer is evaluable', None, why)
+        return
+    folded = {w.casefold() for _, d in T.kw for w in d}
+    for w in FOREIGN_WORDS:
+        if w.casefold() in folded:
+            continue
+        ev = ME.Evaluator(ctx, f.mod, L)
+        ev.effects = True
+        out = []
+        ev.on_yield = out.append
+        env = {f.params[0]: lx, f.params[1]: w}
+        for p_, d_ in zip(f.params[len(f.params) - len(f.node.args.defaults):], f.node.args.defaults):
+            env[p_] = ev.ev(d_, {})
+        try:
+            ME.run_function(ev, f.node, env, max_steps=20000)
+        except (ME.Unsupported, ME.Unknown) as e:
+            ctx.ob('R14.10', 'foreign:simulation', loc, 'Lexer.get_tokens is evaluable on single words', None, f'{w!r}: {e}')
+            return
+        except ME.Crash as e:
+            out = [('crash', str(e))]
+        ok = len(out) == 1 and tuple(out[0]) == (TT(('Name',)), w)
+        ctx.ob('R14.10', f'foreign:{w}', loc, f'the word {w!r} (casefold {w.casefold()!r} is in no dictionary) is one Name token', ok,
+               f'tokenize({w!r}) gives {out!r}: is_keyword compares str.upper() of the word, which maps this letter onto an ASCII one')
